@@ -8,6 +8,13 @@ NOTES = "All checks rebuild from /repo's working tree through bin/prepare (instr
 NOT_APPLICABLE = {}
 A_NOTE = "Trusted: the vrt shims model Go's mutex/cond/channel/select/timer semantics faithfully (self-tests + repository tests pass on the instrumented build in passthrough mode); sequential consistency; scheduling points before acquire-type operations only; data races are left to a separate -race pass."
 CHECKS = {
+    "C08": {
+        "engine": "gosched (deterministic schedule) + enumeration",
+        "technique": "exhaustive enumeration of declaration x operation x target x owner on the real runtime API, each case run to exact quiescence under the controlled scheduler, against a reference policy",
+        "text": "For every declaration (6 input kinds x by-kind/by-ID x {no output, exclusive, shared} x cached/uncached; both controller flavours) a probe controller performs each of 18 operations (Get/List/ContextWithTeardown/GetUncached/ListUncached/Create(+NoOwner)/Update/Modify(+WithResult,+NoOwner)/Teardown(+WithOwner)/Destroy(+WithOwner x2)/AddFinalizer/RemoveFinalizer) on 5 targets (declared input same id / other id, declared output, undeclared type, input type in another namespace) x 4 current owners (self, other, nobody, absent) through the real runtime; a policy function transcribed from the statement decides allow/deny and the expected resulting store; denied => error and full snapshot (incl. bystanders) unchanged; allowed create stamps the controller as owner; foreign-owned resources untouched unless the explicit owner option names that owner.",
+        "design_ref": "DESIGN.md 3/C08",
+        "note": A_NOTE + " Deterministic default schedule: the property is about access decisions.",
+    },
     "C17": {
         "engine": "seqx+gosched",
         "technique": "explicit-state BFS over dependency-database operations vs a set model (white-box facade) + exhaustive enumeration of registration sequences on the real runtime run to exact quiescence on the controlled scheduler",
